@@ -71,6 +71,9 @@ def floors(tier):
   f['ev:eager_equals_jit'] = 2 * (1 if tier == 'quick' else 6)
   f['ev:wrapped_batch_equals_solo:scripted'] = 6 * k
   f['ev:wrapped_members_independent:scripted'] = 6 * k
+  f['ev:wrapped_eager_equals_jit'] = 4 * (1 if tier == 'quick' else 5)
+  f['ev:wrapped_step_repeatable_on_same_state'] = 4 * (
+      1 if tier == 'quick' else 5)
   f['ev:wrapped_batch_equals_solo:env'] = 12 * (1 if tier == 'quick' else 4)
   f['ev:wrapped_members_independent:env'] = 10 * (
       1 if tier == 'quick' else 4)
@@ -278,6 +281,30 @@ def run(job, mon):
                                action_repeat=krep)
     env, rb, ends = compare_rollouts('scripted', mk, keys, acts, nb, 0.0, wit)
     independence('scripted', env, rb, keys, acts, nb, wit, other)
+    # eager evaluation of the wrapped environment: (a) stepping the same
+    # state object twice gives the same result (a step must not change the
+    # state it was given in a way that matters), (b) an eager rollout equals
+    # the jitted one, across episode ends
+    senv = mk()
+    s_j = jax.jit(senv.reset)(keys)
+    s_e = senv.reset(keys)
+    jstep = jax.jit(senv.step)
+    fields = lambda s: dict(obs=np.asarray(s.obs), reward=np.asarray(s.reward),
+                            done=np.asarray(s.done),
+                            trunc=np.asarray(s.info['truncation']),
+                            steps=np.asarray(s.info['steps']))
+    ok_twice, ok_eager = True, True
+    for t in range(min(nsteps, 2 * length + 2)):
+      first = fields(senv.step(s_e, acts[t]))
+      second = fields(senv.step(s_e, acts[t]))  # same state object again
+      ok_twice = ok_twice and all(np.array_equal(first[f], second[f])
+                                  for f in first)
+      s_e = senv.step(s_e, acts[t])
+      s_j = jstep(s_j, acts[t])
+      fe, fj = fields(s_e), fields(s_j)
+      ok_eager = ok_eager and all(np.array_equal(fe[f], fj[f]) for f in fe)
+    mon.check('wrapped_step_repeatable_on_same_state', ok_twice, wit)
+    mon.check('wrapped_eager_equals_jit', ok_eager, wit)
     mon.distinct('scripted|%d' % idx, ends > 0)
     mon.sample(dict(workload='scripted', L=length, k=krep, batch=nb,
                     steps=nsteps, episode_ends=ends))
